@@ -69,6 +69,8 @@ type Scenario[P any] struct {
 	// KeepChanLog records every channel send/receive of the execution (x.ChanLog) for oracles that need to know who
 	// handed what to whom.
 	KeepChanLog bool
+	// NoRace turns the happens-before data-race detection (vsched race.go) off for this scenario.
+	NoRace bool
 	// DefaultOnly: run only the default schedule (for checks whose quantifier is not the schedule).
 	DefaultOnly bool
 	// Body runs as the main thread of the execution; it builds fresh objects,
@@ -85,6 +87,9 @@ type witness[P any] struct {
 	Schedule []int  `json:"schedule"`
 }
 
+// raceOn: happens-before race detection in every scenario (VERIF_NORACE=1 turns it off).
+var raceOn = os.Getenv("VERIF_NORACE") == ""
+
 // Stats is returned by Explore.
 type Stats = vsched.ExploreStats
 
@@ -96,8 +101,16 @@ func Explore[P any](c *kit.Ctx, sc Scenario[P], bound int, shard, shards int) St
 	var last *vsched.Sched
 	runOne := func(w witness[P], trace bool) (kit.Result, *vsched.Sched, *Obs) {
 		o := &Obs{Vals: map[string]int{}}
-		x := vsched.Run(w.Schedule, vsched.Opts{MaxSteps: sc.MaxSteps, KeepTrace: trace, KeepChanLog: sc.KeepChanLog}, func() { sc.Body(w.Params, o) })
+		x := vsched.Run(w.Schedule, vsched.Opts{MaxSteps: sc.MaxSteps, KeepTrace: trace, KeepChanLog: sc.KeepChanLog, Race: raceOn && !sc.NoRace}, func() { sc.Body(w.Params, o) })
 		r := sc.Check(w.Params, o, x)
+		if r.Class == "" && len(x.Races) > 0 {
+			var l []string
+			for _, rc := range x.Races {
+				l = append(l, rc.String())
+			}
+			r = kit.Bad("data-race:"+x.Races[0].Key(), "unsynchronised conflicting accesses (no happens-before edge between them in this execution; "+
+				"the cooperative scheduler cannot interleave inside such a section, the real runtime can):\n  %s", strings.Join(l, "\n  "))
+		}
 		if r.Class == "" && len(x.Panics) > 0 {
 			r = kit.Bad("panic", "panic inside the execution: %s", strings.Join(x.Panics, "\n"))
 		}
@@ -124,7 +137,7 @@ func Explore[P any](c *kit.Ctx, sc Scenario[P], bound int, shard, shards int) St
 	execs := 0
 	stepLimited := 0
 	st := vsched.Explore(vsched.ExploreOpts{
-		Bound: bound, FreeBound: sc.FreeBound, DefaultOnly: sc.DefaultOnly, Deadline: c.Deadline(), Shard: shard, Shards: shards, SplitAt: 3, Run: vsched.Opts{MaxSteps: sc.MaxSteps, KeepChanLog: sc.KeepChanLog},
+		Bound: bound, FreeBound: sc.FreeBound, DefaultOnly: sc.DefaultOnly, Deadline: c.Deadline(), Shard: shard, Shards: shards, SplitAt: 3, Run: vsched.Opts{MaxSteps: sc.MaxSteps, KeepChanLog: sc.KeepChanLog, Race: raceOn && !sc.NoRace},
 		Exec: func(prefix []int) *vsched.Sched {
 			if execs++; execs%256 == 0 {
 				runtime.GC()
